@@ -16,7 +16,7 @@ RULE = ("assertion kind (eq, ne, lt, le, gt, ge with secret or constant second o
         "(accepted => satisfiable) and S == A (the in-circuit relation is the run-time one: same bounds, same width). "
         "Fixed-point assertions are also given non-finite float bounds (nan, inf, -inf; relation = Python float comparison). Non-trivial = window has values on both sides of R and S is neither empty nor full; distinct by "
         "(kind, parameters, field, bitlength).")
-RULE += " Extensions (seeded rounds 10-15): non-finite float bounds, plain array entries (also with errors ignored for kinds that are never accepted), arrays of different lengths, assertions after a refused float bound, assertions on outputs of divisions and of from_bits over raw wires, widths beyond 64 bits, float bounds next to whole numbers on integer assertions."
+RULE += " Extensions (seeded rounds 10-15): non-finite float bounds, plain array entries (also with errors ignored for kinds that are never accepted), arrays of different lengths, assertions after a refused float bound, assertions on outputs of divisions and of from_bits over raw wires, widths beyond 64 bits, float bounds next to whole numbers on integer assertions, plain sequences as the right-hand side of Array.assert_eq."
 
 
 
@@ -84,6 +84,12 @@ def kinds(b):
                   lambda ns, ops, prm: ns.ar.Array([3, ops[0]]).assert_eq(ns.ar.Array([4, ops[1]])), lambda v, prm: False))
     K.append(Kind("Array.assert_eq(equal plain entries)", 2,
                   lambda ns, ops, prm: ns.ar.Array([3, ops[0]]).assert_eq(ns.ar.Array([3, ops[1]])), lambda v, prm: v[0] == v[1]))
+    # the right-hand side given as a plain sequence instead of an Array (today refused: AttributeError): shorter, longer, empty,
+    # or of the same length - never equal when the lengths differ
+    K.append(Kind("Array.assert_eq(shorter plain list)", 2, lambda ns, ops, prm: ns.ar.Array([ops[0], ops[1]]).assert_eq([ops[0]]), lambda v, prm: False))
+    K.append(Kind("Array.assert_eq(longer plain tuple)", 2, lambda ns, ops, prm: ns.ar.Array([ops[0], ops[1]]).assert_eq((ops[0], ops[1], 1)), lambda v, prm: False))
+    K.append(Kind("Array.assert_eq(empty list)", 1, lambda ns, ops, prm: ns.ar.Array([ops[0]]).assert_eq([]), lambda v, prm: False))
+    K.append(Kind("Array.assert_eq(plain list of the same length)", 2, lambda ns, ops, prm: ns.ar.Array([ops[0], ops[1]]).assert_eq([1, 2]), lambda v, prm: v[0] == 1 and v[1] == 2))
     K.append(Kind("Array.assert_eq(plain entry vs secret)", 2,
                   lambda ns, ops, prm: ns.ar.Array([ops[0], 3]).assert_eq(ns.ar.Array([ops[0], ops[1]])), lambda v, prm: v[1] == 3))
     # a history with a refusal in it: an assertion with another constant, then the same assertion with the bound given as a float
